@@ -1,23 +1,35 @@
-(* C02 property theorems only.  Proofs live in Proofs/Fk/FixedLibEvents.v, Proofs/C04_Proofs.v, Proofs/C02_Proofs.v. *)
+(* C02 property theorems only.  Proofs live in Proofs/Fk/MovingLib*.v and Proofs/C02_Proofs.v. *)
 From BV Require Import Base.Prelude Model.Block Model.ForkDB Model.Forkable Spec.Consumer Spec.Universe
-  Spec.C01_Spec Spec.C02_Spec Proofs.C02_Proofs.
+  Spec.C01_Moving_Spec Spec.C02_Spec Proofs.C02_Proofs Properties.C01_Moving.
 Local Open Scope N_scope.
 
-(* the degenerate fixed-LIB case only: no Irreversible/Stalled/New+Irreversible event is ever delivered
+(* partial: configured starting LIB (exclusive or inclusive) coherent with the history, any handler oracle
    (c02_full in Spec/C02_Spec.v is the full statement; the gap is named in driver/thm_C02.json) *)
-Theorem c02_fixed_lib_no_finality : c02_fixed_lib_statement.
-Proof. exact c02_fixed_lib_proved. Qed.
-Print Assumptions c02_fixed_lib_no_finality.
+Theorem c02_moving_lib_partial : c02_moving_lib_statement.
+Proof. exact c02_moving_lib_proved. Qed.
+Print Assumptions c02_moving_lib_partial.
 
-(* non-vacuity: a fixed-LIB history with a fork switch, full filter (Irreversible and Stalled wanted):
-   in scope, events are delivered, none is a finality event *)
-Definition c02_ex_r0 : ref := mkR 1 10.
-Definition c02_ex_hist : list block :=
-  [ mkBlock 2 11 1 10; mkBlock 3 12 2 10; mkBlock 4 12 2 10; mkBlock 5 13 4 10; mkBlock 6 14 5 10 ].
-Definition c02_ex_cfg : config := mkCfg 0 false false 0 false (mkFilter true true true true) None.
-
+(* non-vacuity: the history of Properties/C01_Moving.v (LIB moves four times, once by three blocks up to
+   the head itself, once in the same step as a reorganisation; six Irreversible and five Stalled events)
+   meets every hypothesis, with and without retained final blocks *)
 Example c02_nonvacuous :
-  c01_fixed_scope_b c02_ex_r0 c02_ex_hist = true /\
-  map (fun e => (estep e, bid (eblk e))) (all_events (fk_run c02_ex_cfg (fs_init (LExcl c02_ex_r0)) c02_ex_hist)) =
-    [(SNew, 2); (SNew, 3); (SUndo, 3); (SNew, 4); (SNew, 5); (SNew, 6)].
-Proof. vm_compute. repeat split. Qed.
+  moving_scope_b mv_r0 mv_hist = true /\
+  f_irr (c_filter (mv_cfg 0 false)) = true /\
+  length (filter (fun e => step_eqb (estep e) SIrr) (all_events (fk_run (mv_cfg 0 false) (fs_init (LExcl mv_r0)) mv_hist))) = 6%nat /\
+  length (filter (fun e => step_eqb (estep e) SStalled) (all_events (fk_run (mv_cfg 0 false) (fs_init (LExcl mv_r0)) mv_hist))) = 5%nat /\
+  length (filter (fun e => step_eqb (estep e) SIrr) (all_events (fk_run (mv_cfg 3 true) (fs_init (LExcl mv_r0)) mv_hist))) = 6%nat /\
+  length (filter (fun e => step_eqb (estep e) SIrr) (all_events (fk_run mv_cfg_fail (fs_init (LExcl mv_r0)) mv_hist))) = 2%nat /\
+  moving_scope_b mv_r0 mv_hist_incl = true /\
+  length (filter (fun e => step_eqb (estep e) SIrr) (all_events (fk_run mv_cfg_incl (fs_init (LIncl mv_r0)) mv_hist_incl))) = 7%nat.
+Proof. vm_compute. repeat split; reflexivity. Qed.
+
+(* discovery mode (no configured LIB, hold-until-LIB), any handler oracle *)
+Theorem c02_discovery_partial : c02_discovery_statement.
+Proof. exact c02_discovery_proved. Qed.
+Print Assumptions c02_discovery_partial.
+
+Example c02_discovery_nonvacuous :
+  disc_scope_b dv_hist = true /\ c_hold (dv_cfg 1 None) = true /\ f_irr (c_filter (dv_cfg 1 None)) = true /\
+  length (filter (fun e => step_eqb (estep e) SIrr) (all_events (fk_run (dv_cfg 1 None) (fs_init LNone) dv_hist))) = 6%nat /\
+  length (filter (fun e => step_eqb (estep e) SStalled) (all_events (fk_run (dv_cfg 1 None) (fs_init LNone) dv_hist))) = 1%nat.
+Proof. vm_compute. repeat split; reflexivity. Qed.
